@@ -28,18 +28,147 @@ structure FrameFits (ch : Choices) (type payload : Bytes) : Prop where
   blob_le : (specBlob ch payload).length ≤ PbfFraming.maxUncompressedBlobSize
   hdr_le : (specHdr ch type payload).length ≤ PbfFraming.maxBlobHeaderSize
 
+/-! ### helpers -/
+
+/-- a "last field with key `k` wins" fold only sees the fields with key `k` -/
+theorem spec_fr_foldl_key {α : Type} (k : Nat × WireType) (v : Field → α) (p : Field → Bool)
+    (hp : ∀ f, p f = decide (key f = k)) : ∀ (l : List Field) (a : α),
+    l.foldl (fun acc f => if p f then v f else acc) a =
+      (l.filter (fun g => key g = k)).foldl (fun _ f => v f) a
+  | [], _ => rfl
+  | f :: l, a => by
+    by_cases h : key f = k
+    · have hpf : p f = true := by rw [hp]; simpa using h
+      simp only [List.foldl_cons, hpf, ↓reduceIte, List.filter_cons, h, decide_true]
+      exact spec_fr_foldl_key k v p hp l (v f)
+    · have hpf : p f = false := by rw [hp]; simpa using h
+      simp only [List.foldl_cons, hpf, Bool.false_eq_true, ↓reduceIte, List.filter_cons, h, decide_false]
+      exact spec_fr_foldl_key k v p hp l a
+
+/-- the fields of an arranged BlobHeader with a key the BlobHeader knows are the canonical ones -/
+theorem spec_fr_hdr_filter (ch : Choices) (hch : ChoicesOk ch) (fs : List Field) (k : Nat × WireType)
+    (hk : ∀ e : Field, key e = k → blobHeaderKnown e = true) :
+    (PbfSpec.arrange ch PbfSpec.kBlobHeader fs).filter (fun g => key g = k) = fs.filter (fun g => key g = k) := by
+  unfold PbfSpec.arrange
+  rw [sortByRank_filter, List.filter_append]
+  have : (ch.extras PbfSpec.kBlobHeader).filter (fun g => key g = k) = [] := by
+    rw [List.filter_eq_nil_iff]
+    intro e he hek
+    have h1 : blobHeaderKnown e = false := hch.extrasUnknown PbfSpec.kBlobHeader e he
+    have h2 := hk e (by simpa using hek)
+    rw [h1] at h2
+    exact absurd h2 (by decide)
+  rw [this, List.append_nil]
+
+theorem spec_fr_blob_pos (ch : Choices) (payload : Bytes) : 0 < (specBlob ch payload).length := by
+  have h := encodeFields_length_ge (PbfSpec.arrange ch PbfSpec.kBlob [PbfSpec.fBytes 1 payload])
+  rw [length_arrange] at h
+  simp only [List.length_cons, List.length_nil] at h
+  unfold specBlob PbfSpec.msg
+  omega
+
+theorem spec_fr_hdr_pos (ch : Choices) (type payload : Bytes) : 0 < (specHdr ch type payload).length := by
+  unfold specHdr PbfSpec.msg
+  have h := encodeFields_length_ge (PbfSpec.arrange ch PbfSpec.kBlobHeader ([PbfSpec.fBytes 1 type] ++
+    (match ch.indexdata with | some d => [PbfSpec.fBytes 2 d] | none => []) ++
+    [PbfSpec.fInt 3 (specBlob ch payload).length]))
+  rw [length_arrange] at h
+  simp only [List.length_append, List.length_cons, List.length_nil] at h
+  omega
+
+/-- `decode_blob_header` on the BlobHeader of the specification encoder -/
+theorem spec_fr_blobSize (ch : Choices) (hch : ChoicesOk ch) (first : Bool) (type : Bytes)
+    (ht : type = if first then PbfFraming.osmHeader else PbfFraming.osmData) (payload : Bytes)
+    (hfit : FrameFits ch type payload) :
+    PbfFraming.blobSize first (specHdr ch type payload) = some (specBlob ch payload).length := by
+  have hm : PbfFraming.maxUncompressedBlobSize = 33554432 := by decide
+  have hh : PbfFraming.maxBlobHeaderSize = 65536 := by decide
+  have hbl := hfit.blob_le
+  have hhl := hfit.hdr_le
+  have hpos := spec_fr_blob_pos ch payload
+  have htl : type.length < 2 ^ 32 := by
+    subst ht; cases first <;> simp [osmData_len, osmHeader_len]
+  have hwf : ∀ f ∈ ([PbfSpec.fBytes 1 type] ++
+      (match ch.indexdata with | some d => [PbfSpec.fBytes 2 d] | none => []) ++
+      [PbfSpec.fInt 3 (specBlob ch payload).length]), f.WF := by
+    intro f hf
+    have hle := fun hw => payload_le_msg ch PbfSpec.kBlobHeader _ f hf hw
+    simp only [List.mem_append, List.mem_cons, List.not_mem_nil, or_false] at hf
+    rcases hf with (rfl | hf) | rfl
+    · exact wf_bytes 1 _ (by decide) (by decide) htl
+    · cases hi : ch.indexdata with
+      | none => simp [hi] at hf
+      | some d =>
+        simp only [hi, List.mem_cons, List.not_mem_nil, or_false] at hf
+        subst hf
+        have := hle rfl
+        refine wf_bytes 2 _ (by decide) (by decide) ?_
+        change d.length ≤ (specHdr ch type payload).length at this
+        simp only [Nat.reducePow]; omega
+    · exact wf_varint 3 _ (by decide) (by decide) (u64_lt _)
+  have hds : toInt32 (u64 ((specBlob ch payload).length : Int)) = ((specBlob ch payload).length : Int) := by
+    rw [u64_nat _ (by simp only [Nat.reducePow]; omega), toInt32_small _ (by simp only [Nat.reducePow]; omega)]
+  unfold PbfFraming.blobSize PbfFraming.decodeBlobHeader specHdr
+  rw [readFields_msg ch _ _ hwf (hch.extrasWF PbfSpec.kBlobHeader), ← ht]
+  simp only []
+  rw [spec_fr_foldl_key (1, WireType.lengthDelimited) (fun f => f.payload)
+      (fun f => f.tag == 1 && f.wt == .lengthDelimited) (by intro f; by_cases a : f.tag = 1 <;> by_cases b : f.wt = WireType.lengthDelimited <;> simp [key, a, b]),
+    spec_fr_foldl_key (3, WireType.varint) (fun f => toInt32 f.val)
+      (fun f => f.tag == 3 && f.wt == .varint)
+      (by intro f; by_cases a : f.tag = 3 <;> by_cases b : f.wt = WireType.varint <;> simp [key, a, b]),
+    spec_fr_hdr_filter ch hch _ _ (by intro e he; simp only [key, Prod.mk.injEq] at he; simp [blobHeaderKnown, he.1, he.2]),
+    spec_fr_hdr_filter ch hch _ _ (by intro e he; simp only [key, Prod.mk.injEq] at he; simp [blobHeaderKnown, he.1, he.2])]
+  have hne : ((((specBlob ch payload).length : Int)) == 0) = false := by
+    rw [beq_eq_false_iff_ne]; omega
+  have hnn : ¬ (((specBlob ch payload).length : Int)) < 0 := by omega
+  cases hi : ch.indexdata <;>
+    simp [key, PbfSpec.fBytes, PbfSpec.fInt, PbfSpec.fVarint, spec_u64, hds, hne, hnn, strncmpEq_refl]
+
 theorem spec_nextBlob (ch : Choices) (hch : ChoicesOk ch) (first : Bool) (type : Bytes)
     (ht : type = if first then PbfFraming.osmHeader else PbfFraming.osmData) (payload rest : Bytes)
     (hfit : FrameFits ch type payload) :
     nextBlob first (PbfSpec.frame ch type payload ++ rest) = some (some (specBlob ch payload, rest)) := by
-  sorry
+  have hh : PbfFraming.maxBlobHeaderSize = 65536 := by decide
+  have hhl := hfit.hdr_le
+  rw [spec_frame_eq]
+  exact nextBlob_framed first _ _ rest (spec_fr_hdr_pos ch type payload) (by omega)
+    (spec_fr_blobSize ch hch first type ht payload hfit) hfit.blob_le
+
+theorem spec_fr_blob_unknown (s : BlobAcc) (f : Field) (h : blobKnown f = false) : blobStep s f = some s := by
+  obtain ⟨tag, wt, val, pl⟩ := f
+  unfold blobStep
+  split
+  · rfl
+  · split <;> simp_all [blobKnown]
 
 theorem spec_decodeBlob (ch : Choices) (hch : ChoicesOk ch) (inflate : Nat → Bytes → Nat → Option Bytes) (payload : Bytes)
     (h1 : payload.length ≤ PbfFraming.maxUncompressedBlobSize) :
     decodeBlob inflate (specBlob ch payload) = some payload := by
-  sorry
+  have hm : PbfFraming.maxUncompressedBlobSize = 33554432 := by decide
+  have hwf : ∀ f ∈ [PbfSpec.fBytes 1 payload], f.WF := by
+    intro f hf
+    simp only [List.mem_cons, List.not_mem_nil, or_false] at hf
+    subst hf
+    exact wf_bytes 1 _ (by decide) (by decide) (by simp only [Nat.reducePow]; omega)
+  have hn : ¬ payload.length > PbfFraming.maxUncompressedBlobSize := by omega
+  unfold decodeBlob withFields specBlob
+  rw [readFields_msg ch _ _ hwf (hch.extrasWF PbfSpec.kBlob)]
+  simp only []
+  rw [decodeMsg_arrange blobStep blobKnown (fun s f h => spec_fr_blob_unknown s f h)
+    (fun f => key f = (1, WireType.lengthDelimited) ∨ blobKnown f = false)
+    (commutesOn_single blobStep blobKnown (fun s f h => spec_fr_blob_unknown s f h) (1, WireType.lengthDelimited))
+    ch PbfSpec.kBlob _ _
+    (by intro f hf
+        simp only [List.mem_cons, List.not_mem_nil, or_false] at hf
+        subst hf; exact Or.inl rfl)
+    (fun e he => Or.inr (hch.extrasUnknown PbfSpec.kBlob e he))
+    (fun e he => hch.extrasUnknown PbfSpec.kBlob e he)]
+  simp [decodeMsg, blobStep, PbfSpec.fBytes, hn]
 
 theorem spec_frame_length (ch : Choices) (type payload : Bytes) : 4 ≤ (PbfSpec.frame ch type payload).length := by
-  sorry
+  rw [spec_frame_eq]
+  simp only [List.length_append]
+  have : (be32 (specHdr ch type payload).length).length = 4 := rfl
+  omega
 
 end Osmium.Pbf
